@@ -189,7 +189,10 @@ class SeqGen:
     def walk(self, op, arg, sz):
         """First page only: the token of a later page is not known to the generator; full walks
         are produced by the orchestrator's two-pass `walk` cases."""
-        self.emit("%s %s %d -" % (op, arg, sz))
+        if self.rng.chance(1, 2):
+            self.emit("w%s %s %d" % (op[1:], arg, sz))      # the whole walk
+        else:
+            self.emit("%s %s %d -" % (op, arg, sz))
 
     def op_pub(self):
         r = self.rng
@@ -322,6 +325,7 @@ class SeqGen:
         secs = [r.choice([0, 10, 30, 600, 700]) for _ in mods]
         bad = r.below(30)
         subf, mm, mb = "-", 0, 0
+        broke = True
         if bad == 0:
             subf = hx(b"projects/p1/subscriptions/s1")
         elif bad == 1:
@@ -336,8 +340,10 @@ class SeqGen:
             acks = acks + ["zz"]
         elif bad == 6:
             mods, secs = mods + ["zz"], secs + [10]
+        else:
+            broke = False
         self.emit("ssend %d %s %s %s %s %d %d" % (k, subf, jl(hx(a) for a in acks), jl(hx(a) for a in mods), jl(str(x) for x in secs), mm, mb))
-        if bad <= 6:
+        if broke:
             if s:
                 s.stream = None
             self.streams.pop(k, None)
@@ -438,7 +444,10 @@ class SeqGen:
         for t in sorted(self.topics):
             self.emit("ltsubs %s 1000 -" % hx(t))
         if self.p.get("drain", True) and self.subs:
-            self.emit("adv 700000000")
+            # every lease is over after max(ack deadline, 600 s modification cap) + rounding
+            longest = max([600 * 10 ** 6] + [s.dl for s in self.subs.values()])
+            self.emit("# drain")
+            self.emit("adv %d" % (longest + 101000000))
             for n in sorted(self.subs):
                 self.emit("pull %s 1000 1" % hx(n))
                 self.emit("pull %s 1000 1" % hx(n))
